@@ -580,8 +580,10 @@ def check_pointwise(F, O, contract, tags, rs, npoints, out, nontrivial=True, out
         return False
     fi = fs_inputs(F)
     oi = dict(O.inputs)
-    if fi != oi:
-        out.append(rec("fail", contract, tags + ["inputs"], "inputs of result %r != expected %r" % (fi, oi)))
+    # an evaluated result may omit inputs its value does not depend on (the pointwise comparison below, at points over
+    # all expected inputs, then shows the independence); it may not have extra or re-typed inputs
+    if any(k not in oi or oi[k] != v for k, v in fi.items()):
+        out.append(rec("fail", contract, tags + ["inputs"], "inputs of result %r not among expected %r" % (fi, oi)))
         return False
     if F.output != Reals[tuple(out_shape)]:
         out.append(rec("fail", contract, tags + ["output"], "output of result %r != %r" % (F.output, Reals[tuple(out_shape)])))
